@@ -617,7 +617,8 @@ Fixpoint run_records (vr : variant) (p : prog) (quiet : bool) (fuel : nat) (recs
   end.
 
 Definition run_prog (vr : variant) (p : prog) (quiet : bool) (fuel : nat) (recs : list amap) : res (list outitem) :=
-  do st1 <- run_blocks vr (p_funcs p) fuel (p_begin p) init_state;
-  do st2 <- run_records vr p quiet fuel recs st1;
+  (* the begin blocks run when the first record arrives, with that record's context (NR = 1), or at end of stream (NR = 0) *)
+  do st1 <- run_blocks vr (p_funcs p) fuel (p_begin p) (set_nr (match recs with [] => 0 | _ => 1 end) init_state);
+  do st2 <- run_records vr p quiet fuel recs (set_nr 0 st1);
   do st3 <- run_blocks vr (p_funcs p) fuel (p_end p) (set_inrec None st2);
   Ok (rev (outp st3)).
